@@ -75,7 +75,7 @@ def run_faults(pid, tier, theorems, imports, targets):
             kinds = hr.choice(['write', 'write', 'sync', 'open', 'rename', 'unlink', 'close', 'read', 'write,sync', ''])
             errno = hr.choice([28, 28, 5, 24, 2])
             persistent = 1 if hr.chance(1, 4) else 0
-            partial = 1 if hr.chance(1, 3) else 0
+            partial = hr.choice([0, 0, 0, 1, 2, 2])
             kc = base['kindcount']
             first = kinds.split(',')[0] if kinds else ''
             kk = sum(kc.get(x, 0) for x in kinds.split(',')) if kinds else K
@@ -105,7 +105,7 @@ def run_faults(pid, tier, theorems, imports, targets):
             else:
                 mism.append((r, p))
     chk.rules.append('write/flush/compaction histories (half of them: one log, many small records crossing 32 KiB block boundaries) re-run with the k-th intercepted system call failing '
-                     '(kinds open/write/fsync/rename/unlink/close/read, errno ENOSPC/EIO/EMFILE/ENOENT, one-shot or persistent, optional partial write); after the fault is cleared: more '
+                     '(kinds open/write/fsync/rename/unlink/close/read, errno ENOSPC/EIO/EMFILE/ENOENT, one-shot or persistent; a failing write may first transfer half of the data, either reporting the error at once or reporting a short count and failing the retry); after the fault is cleared: more '
                      'writes, reads, kill image and clean close, each reopened with the real code; oracle: no crash/hang, reads correct, every acknowledged write present; '
                      'non-trivial = the fault actually fired; distinct = distinct (history, k, kind, errno, mode)')
     chk.extra['fault_runs'] = len(results)
